@@ -746,6 +746,12 @@ class IteratorQueue(IterableQueue[_ValueT]):
         _release_and_notify(
             self._states_lock, notify=self._dequeue_lock, notify_all=True
         )
+        if self._exception is not None:
+          # A failure ends the stream for the other enqueuers too: wake those
+          # blocked on a full queue, no consumer may come to make room again.
+          _release_and_notify(
+              self._states_lock, notify=self._enqueue_lock, notify_all=True
+          )
         logging.debug(
             'chainable: %s', f'"{self.name}" enqueue done, notify all'
         )
